@@ -1,6 +1,6 @@
 SPECIFICATION SimSpec
 CONSTANTS
-  Flavour = "ip"
+  Flavour = "coap"
   MaxV = 4
   InitVers = {1, 2}
   InitCaches = {0, 0, 11, 1, 12, 22}
